@@ -280,7 +280,8 @@ StringDictionary *StringDictionaryHASHRPDAC::load(std::istream &in,
     return NULL;
 
   StringDictionaryHASHRPDAC *dict = new StringDictionaryHASHRPDAC();
-  dict->type = technique;
+  dict->type = HASHRPDAC; // 'technique' is not used by this kind
+  (void)technique;
   dict->elements = loadValue<uint64_t>(in);
   dict->maxlength = loadValue<uint32_t>(in);
 
